@@ -42,6 +42,7 @@ type Contract struct {
 	Modifies   []string // ghost names or heap keys; "*" = everything
 	HasMod     bool
 	Havocs     []string
+	Writes     []string // parameters whose pointee is overwritten (havoc at that reference only)
 	File       string
 	Line       int
 	Assumed    bool
@@ -137,7 +138,7 @@ func (db *SpecDB) loadFile(path string, assumed bool) error {
 	}
 	// join continuation lines: a line whose first word is not a keyword continues the previous one
 	kw := map[string]bool{"func": true, "requires": true, "ensures": true, "modifies": true, "havocs": true, "loop": true, "decreases": true,
-		"assert_at": true, "assert_after": true, "crash_invariant": true, "flags": true, "ghost": true, "define": true, "ufunc": true, "axiom": true, "lemma": true, "opt": true}
+		"assert_at": true, "assert_after": true, "writes": true, "crash_invariant": true, "flags": true, "ghost": true, "define": true, "ufunc": true, "axiom": true, "lemma": true, "opt": true}
 	var joined []rawLine
 	for _, l := range lines {
 		w := strings.Fields(l.text)
@@ -289,6 +290,10 @@ func (db *SpecDB) loadFile(path string, assumed bool) error {
 			case "havocs":
 				for _, f := range strings.FieldsFunc(rest, func(r rune) bool { return r == ',' || r == ' ' }) {
 					cur.Havocs = append(cur.Havocs, f)
+				}
+			case "writes":
+				for _, f := range strings.FieldsFunc(rest, func(r rune) bool { return r == ',' || r == ' ' }) {
+					cur.Writes = append(cur.Writes, f)
 				}
 			case "requires", "ensures", "crash_invariant":
 				c, err := parseLabeled(w[0], rest)
